@@ -20,6 +20,10 @@ type Mutex struct {
 // holding it must not leak into the runs executed after it.
 func (m *Mutex) fresh() {
 	if m.owner != S {
+		if m.owner != nil && S.cfg.KeepGlobals {
+			m.owner, m.id = S, 0 // the same process goes on: the state stays, only the trace name is renewed
+			return
+		}
 		*m = Mutex{owner: S}
 	}
 }
@@ -91,6 +95,10 @@ type RWMutex struct {
 
 func (m *RWMutex) fresh() {
 	if m.owner != S {
+		if m.owner != nil && S.cfg.KeepGlobals {
+			m.owner, m.id = S, 0
+			return
+		}
 		*m = RWMutex{owner: S}
 	}
 }
